@@ -376,7 +376,7 @@ spec fn one_changed(pre: Seq<NodeInfo>, post: Seq<NodeInfo>, n: int) -> bool {
     &&& post.len() == pre.len()
     &&& forall|k: int| 0 <= k < pre.len() && k != n ==> (#[trigger] post[k]).job_id == pre[k].job_id
             && post[k].state == pre[k].state && post[k].history_output == pre[k].history_output
-            && post[k].aborted_before_start == pre[k].aborted_before_start
+            && ab_flag(post[k]) == ab_flag(pre[k])
     &&& post[n].job_id == pre[n].job_id
 }
 
@@ -538,12 +538,12 @@ spec fn keeps_records(s: JobState) -> bool {
 
 /// ... or because the run was aborted before the job had been started (finding F7, repaired: the engine marks such jobs)
 spec fn keeps_j(j: NodeInfo) -> bool {
-    upfailed(j.state) || j.aborted_before_start
+    upfailed(j.state) || ab_flag(j)
 }
 
 /// C08: "was still running when the run was aborted"
 spec fn aborted_while_running(j: NodeInfo) -> bool {
-    is_aborted(j.state) && !j.aborted_before_start
+    is_aborted(j.state) && !ab_flag(j)
 }
 
 spec fn same_at(a: Map<String, String>, b: Map<String, String>, k: String) -> bool {
@@ -1090,14 +1090,14 @@ proof fn lemma_sigs_valid_ok(s: Seq<Signal>, jobs: Seq<NodeInfo>)
 spec fn jobs_touch(a: Seq<NodeInfo>, b: Seq<NodeInfo>) -> bool {
     &&& a.len() == b.len()
     &&& forall|i: int| 0 <= i < a.len() ==> (#[trigger] b[i]).job_id == a[i].job_id && b[i].history_output == a[i].history_output
-            && b[i].state == a[i].state && b[i].aborted_before_start == a[i].aborted_before_start
+            && b[i].state == a[i].state && ab_flag(b[i]) == ab_flag(a[i])
 }
 
 /// only pre-offer states move (within pre-offer); ids and outputs untouched
 spec fn jobs_soft(a: Seq<NodeInfo>, b: Seq<NodeInfo>) -> bool {
     &&& a.len() == b.len()
     &&& forall|i: int| 0 <= i < a.len() ==> (#[trigger] b[i]).job_id == a[i].job_id && b[i].history_output == a[i].history_output
-            && b[i].aborted_before_start == a[i].aborted_before_start
+            && ab_flag(b[i]) == ab_flag(a[i])
             && (b[i].state == a[i].state || (pre_offer(a[i].state) && pre_offer(b[i].state) && same_kind(a[i].state, b[i].state)
                 && pre_le(a[i].state, b[i].state)))
 }
@@ -1142,7 +1142,7 @@ spec fn is_skipfc(s: JobState) -> bool { s == JobState::Ephemeral(JobStateEpheme
 spec fn cleanup_frame(a: Seq<NodeInfo>, b: Seq<NodeInfo>) -> bool {
     &&& a.len() == b.len()
     &&& forall|i: int| 0 <= i < a.len() ==> (#[trigger] b[i]).job_id == a[i].job_id && b[i].history_output == a[i].history_output
-            && b[i].aborted_before_start == a[i].aborted_before_start
+            && ab_flag(b[i]) == ab_flag(a[i])
             && (b[i].state == a[i].state || (is_nrfc(a[i].state) && (is_rfc(b[i].state) || is_skipfc(b[i].state))))
 }
 
@@ -1166,7 +1166,7 @@ proof fn lemma_cleanup_step(dag: &GraphType, jobs0: Seq<NodeInfo>, j0: Seq<NodeI
     requires
         cleanup_frame(jobs0, j0), one_changed(j0, j1, e as int),
         j1[e as int].history_output == j0[e as int].history_output,
-        j1[e as int].aborted_before_start == j0[e as int].aborted_before_start,
+        ab_flag(j1[e as int]) == ab_flag(j0[e as int]),
         j0[e as int].state == jobs0[e as int].state,
         forall|i: int, k: int| 0 <= i < j0.len() && 0 <= k < j0.len() && i != k ==> (#[trigger] j0[i]).job_id != (#[trigger] j0[k]).job_id,
         forall|i: int| 0 <= i < j0.len() ==> (is_rfc(#[trigger] j0[i].state) <==> set0.contains(j0[i].job_id)),
@@ -1179,10 +1179,10 @@ proof fn lemma_cleanup_step(dag: &GraphType, jobs0: Seq<NodeInfo>, j0: Seq<NodeI
         forall|i: int| 0 <= i < j1.len() ==> (is_rfc(#[trigger] j1[i].state) <==> set1.contains(j1[i].job_id)),
 {
     assert forall|i: int| 0 <= i < jobs0.len() implies (#[trigger] j1[i]).job_id == jobs0[i].job_id && j1[i].history_output == jobs0[i].history_output
-        && j1[i].aborted_before_start == jobs0[i].aborted_before_start
+        && ab_flag(j1[i]) == ab_flag(jobs0[i])
         && (j1[i].state == jobs0[i].state || (is_nrfc(jobs0[i].state) && (is_rfc(j1[i].state) || is_skipfc(j1[i].state)))) by {
         if i != e as int { assert(j1[i].state == j0[i].state && j1[i].job_id == j0[i].job_id && j1[i].history_output == j0[i].history_output
-            && j1[i].aborted_before_start == j0[i].aborted_before_start); }
+            && ab_flag(j1[i]) == ab_flag(j0[i])); }
         assert(j0[i].job_id == jobs0[i].job_id);
     }
     assert forall|i: int, k: int| 0 <= i < j1.len() && 0 <= k < j1.len() && i != k implies (#[trigger] j1[i]).job_id != (#[trigger] j1[k]).job_id by {
@@ -1239,17 +1239,17 @@ spec fn gates_ok(jobs: Seq<NodeInfo>, dag: &GraphType) -> bool {
 
 /// only aborted jobs are marked "aborted before they were started" (finding F7, repaired)
 spec fn flags_ok(jobs: Seq<NodeInfo>) -> bool {
-    forall|i: int| #![trigger jobs[i].aborted_before_start] 0 <= i < jobs.len() && jobs[i].aborted_before_start ==> is_aborted(jobs[i].state)
+    forall|i: int| #![trigger ab_flag(jobs[i])] 0 <= i < jobs.len() && ab_flag(jobs[i]) ==> is_aborted(jobs[i].state)
 }
 
 proof fn lemma_flag_of(jobs: Seq<NodeInfo>, dag: &GraphType, i: int)
     requires gates_ok(jobs, dag), 0 <= i < jobs.len(),
-    ensures jobs[i].aborted_before_start ==> is_aborted(jobs[i].state),
+    ensures ab_flag(jobs[i]) ==> is_aborted(jobs[i].state),
 {
 }
 
 proof fn lemma_flags_none(jobs: Seq<NodeInfo>)
-    requires forall|i: int| #![trigger jobs[i].aborted_before_start] 0 <= i < jobs.len() ==> !jobs[i].aborted_before_start,
+    requires forall|i: int| #![trigger ab_flag(jobs[i])] 0 <= i < jobs.len() ==> !ab_flag(jobs[i]),
     ensures flags_ok(jobs),
 {
 }
@@ -1323,12 +1323,12 @@ proof fn lemma_gates_after_write(pre: Seq<NodeInfo>, post: Seq<NodeInfo>, dag: &
         cleanup_reached(post[n].state) ==> cleanup_reached(pre[n].state) || all_down_done(dag, pre, n as usize),
         same_kind(pre[n].state, post[n].state),
         skipped_blank(post[n]) ==> skipped_blank(pre[n]) || all_eph_down(dag, pre, n as usize),
-        post[n].aborted_before_start ==> is_aborted(post[n].state),
+        ab_flag(post[n]) ==> is_aborted(post[n].state),
     ensures gates_ok(post, dag),
 {
     assert(flags_ok(post)) by {
-        assert forall|i: int| #![trigger post[i].aborted_before_start] 0 <= i < post.len() && post[i].aborted_before_start implies is_aborted(post[i].state) by {
-            if i != n { assert(post[i].state == pre[i].state && post[i].aborted_before_start == pre[i].aborted_before_start); assert(pre[i].aborted_before_start); }
+        assert forall|i: int| #![trigger ab_flag(post[i])] 0 <= i < post.len() && ab_flag(post[i]) implies is_aborted(post[i].state) by {
+            if i != n { assert(post[i].state == pre[i].state && ab_flag(post[i]) == ab_flag(pre[i])); assert(ab_flag(pre[i])); }
         }
     }
     assert(blank_skips_ok(post, dag)) by {
@@ -1371,12 +1371,12 @@ proof fn lemma_gates_same_status(pre: Seq<NodeInfo>, post: Seq<NodeInfo>, dag: &
         forall|i: int| 0 <= i < pre.len() && cleanup_reached(#[trigger] post[i].state) ==> cleanup_reached(pre[i].state) || all_down_done(dag, pre, i as usize),
         forall|i: int| 0 <= i < pre.len() ==> same_kind(pre[i].state, (#[trigger] post[i]).state),
         forall|i: int| #![trigger skipped_blank(post[i])] 0 <= i < post.len() && skipped_blank(post[i]) ==> skipped_blank(pre[i]),
-        forall|i: int| #![trigger post[i].aborted_before_start] 0 <= i < post.len() && post[i].aborted_before_start ==> pre[i].aborted_before_start && post[i].state == pre[i].state,
+        forall|i: int| #![trigger ab_flag(post[i])] 0 <= i < post.len() && ab_flag(post[i]) ==> ab_flag(pre[i]) && post[i].state == pre[i].state,
     ensures gates_ok(post, dag2),
 {
     assert(flags_ok(post)) by {
-        assert forall|i: int| #![trigger post[i].aborted_before_start] 0 <= i < post.len() && post[i].aborted_before_start implies is_aborted(post[i].state) by {
-            assert(pre[i].aborted_before_start);
+        assert forall|i: int| #![trigger ab_flag(post[i])] 0 <= i < post.len() && ab_flag(post[i]) implies is_aborted(post[i].state) by {
+            assert(ab_flag(pre[i]));
         }
     }
     lemma_blank_skips_sub(pre, post, dag, dag2);
@@ -1787,7 +1787,7 @@ proof fn lemma_write_ok(pre: Seq<NodeInfo>, post: Seq<NodeInfo>, m: Map<String, 
         needs_up(post[n].state) ==> needs_up(pre[n].state) || all_up_done(dag, pre, n as usize),
         cleanup_reached(post[n].state) ==> cleanup_reached(pre[n].state) || all_down_done(dag, pre, n as usize),
         skipped_blank(post[n]) ==> skipped_blank(pre[n]) || all_eph_down(dag, pre, n as usize),
-        post[n].aborted_before_start ==> is_aborted(post[n].state),
+        ab_flag(post[n]) ==> is_aborted(post[n].state),
         pre[n].history_output is Some ==> post[n].history_output == pre[n].history_output,
         is_ready(pre[n].state) == is_ready(post[n].state) ==> r1 =~= r0,
         is_ready(pre[n].state) && !is_ready(post[n].state) ==> r1 =~= r0.remove(pre[n].job_id),
@@ -1979,7 +1979,7 @@ proof fn lemma_arm_write(oldj: Seq<NodeInfo>, pre: Seq<NodeInfo>, post: Seq<Node
         needs_up(post[n].state) ==> needs_up(pre[n].state) || all_up_done(dag, pre, n as usize),
         cleanup_reached(post[n].state) ==> cleanup_reached(pre[n].state) || all_down_done(dag, pre, n as usize),
         skipped_blank(post[n]) ==> skipped_blank(pre[n]) || all_eph_down(dag, pre, n as usize),
-        post[n].aborted_before_start ==> is_aborted(post[n].state),
+        ab_flag(post[n]) ==> is_aborted(post[n].state),
         pre[n].history_output is Some ==> post[n].history_output == pre[n].history_output,
         is_ready(pre[n].state) == is_ready(post[n].state) ==> r1 =~= r0,
         is_ready(pre[n].state) && !is_ready(post[n].state) ==> r1 =~= r0.remove(pre[n].job_id),
@@ -2135,7 +2135,7 @@ proof fn lemma_all_finished_nothing_ready(jobs: Seq<NodeInfo>, m: Map<String, us
 proof fn lemma_set_output_ok(pre: Seq<NodeInfo>, post: Seq<NodeInfo>, m: Map<String, usize>, dag: &GraphType,
     r0: Set<String>, c0: Set<String>, fin: bool, n: int)
     requires core_ok(pre, m, dag, r0, c0, fin), one_changed(pre, post, n), post[n].state == pre[n].state,
-        is_running(pre[n].state), post[n].history_output is Some, post[n].aborted_before_start == pre[n].aborted_before_start,
+        is_running(pre[n].state), post[n].history_output is Some, ab_flag(post[n]) == ab_flag(pre[n]),
     ensures core_ok_x(post, m, dag, r0, c0, fin, n), jobs_step(pre, post),
 {
     lemma_ids_after_write(pre, post, m, n);
@@ -2324,7 +2324,7 @@ proof fn lemma_add_node_ok(pre: Seq<NodeInfo>, post: Seq<NodeInfo>, m0: Map<Stri
         forall|i: int| 0 <= i < pre.len() ==> (#[trigger] pre[i]).job_id@ != post[pre.len() as int].job_id@,
         valid_id(post[pre.len() as int].job_id@),
         fresh_state(post[pre.len() as int].state), post[pre.len() as int].history_output is None,
-        !post[pre.len() as int].aborted_before_start,
+        !ab_flag(post[pre.len() as int]),
         m1 == m0.insert(post[pre.len() as int].job_id, pre.len() as usize),
         dag1.nodes_set() == dag0.nodes_set().insert(pre.len() as usize), dag1.edges() == dag0.edges(),
     ensures core_ok(post, m1, dag1, ready, cleanup, false),
